@@ -214,13 +214,31 @@ def replay_case(case: Dict[str, Any]) -> Dict[str, Any]:
         src.write_text('def startup @ code_start > IO {\n;code_start\nIO:\n;0\ncode_start:\n}\nstartup\nloop:\n;loop\n' if no_stl
                        else 'stl.startup\nstl.loop\n')
         cli_out, api_out = d / 'cli.fjm', d / 'api.fjm'
+        want_version = FJMVersion(version) if version is not None else FJMVersion.CompressedVersion
+        preset = int(m.get('PRESET', 6))
+        preset_case = 'lzma preset' in case.get('label', '') and want_version == FJMVersion.CompressedVersion and preset != 6
+        if preset_case and not no_stl:
+            # presets differ in the bytes only on a program with some content: the repo's hello_world (the width is irrelevant to
+            # this obligation; 64 is what that program is written for)
+            width = 64
+            hello = common.REPO / 'programs' / 'print_tests' / 'hello_world.fj'
+            if hello.exists():
+                src.write_text(hello.read_text())
         args = [str(src), '-o', str(cli_out), '-w', str(width), '-s', '--asm'] + (['-v', str(version)] if version is not None else []) \
-            + (['--no_stl'] if no_stl else []) + (['--werror'] if m.get('WERROR') else [])
+            + (['--no_stl'] if no_stl else []) + (['--werror'] if m.get('WERROR') else []) + (['--lzma_preset', str(preset)] if preset_case else [])
         with contextlib.redirect_stdout(io.StringIO()):
             flipjump_cli.assemble_run_according_to_cmd_line_args(cmd_line_args=args)
-        want_version = FJMVersion(version) if version is not None else FJMVersion.CompressedVersion
-        flipjump_quickstart.assemble([src], api_out, memory_width=width, use_stl=not no_stl, fjm_version=want_version,
-                                     warning_as_errors=bool(m.get('WERROR')), print_time=False)
+        if preset_case:
+            # --lzma_preset has no quickstart counterpart: the API route is the two cores themselves
+            from flipjump.assembler import assembler
+            from flipjump.fjm.fjm_writer import Writer
+            from flipjump.utils.functions import get_file_tuples
+            with contextlib.redirect_stdout(io.StringIO()):
+                assembler.assemble(get_file_tuples([str(src.absolute())], no_stl=no_stl), width, Writer(api_out, width, want_version, lzma_preset=preset),
+                                   warning_as_errors=bool(m.get('WERROR')), print_time=False)
+        else:
+            flipjump_quickstart.assemble([src], api_out, memory_width=width, use_stl=not no_stl, fjm_version=want_version,
+                                         warning_as_errors=bool(m.get('WERROR')), print_time=False)
         got_v = Reader(cli_out).version
         same = cli_out.read_bytes() == api_out.read_bytes()
         what = ('explicit -v is ignored: the CLI wrote version %d instead of %d' % (got_v.value, want_version.value)
